@@ -109,6 +109,10 @@ pub assume_specification [std::cmp::Ordering::is_ne] (o: Ordering) -> (r: bool) 
 //@use arith.fns ::load#w_cmp_eq
 //@use arith.fns ::load#w_cmp_ne
 
+#[verifier::external_body] fn verif_getrandom4(buf: &mut [u8; 4]) { unimplemented!() }
+#[verifier::external_body] fn verif_unit_real(buf: [u8; 4]) -> f64 { unimplemented!() }
+//@use arith.fns ::core_word_random
+//@use arithwords.fns ::load#w_random
 // the function-path bindings of the word table (Rword + same_as)
 //@use arithwords.fns ::load#w__plus
 //@use arithwords.fns ::load#w__
